@@ -408,6 +408,79 @@ func restartCases(p *pool) {
 	}
 }
 
+// registerCases: the index driven through its only production writer, ptt.SetupNewUser: registrations into a table with
+// a few free slots; ONE of them meets a write fault (.PASSWDS away while its record is written, after the slot was
+// assigned); then an id colliding with the failed id in the 16-bit hash, fillers until no free slot is left (so every
+// free slot, also the one of the failed registration if it was given back, is handed out again), one registration too
+// many, a duplicate in another letter case; lookups of everything at every stage.  Smallest first.
+func registerCases(p *pool) {
+	fam, other := p.fams[0], p.fams[1]
+	frees := []int{2, 3, 4}
+	if run.Thorough() {
+		frees = []int{1, 2, 3, 4, 6}
+	}
+	for _, nFree := range frees {
+		for faultAt := -1; faultAt < 2; faultAt++ { // which registration meets the write fault (-1: none)
+			for _, collide := range []bool{true, false} {
+				table := make([]ID, MAX)
+				j := 0
+				for k := 0; k < MAX-nFree; k++ {
+					table[k] = p.singles[j]
+					j++
+				}
+				if !startHistory(table) {
+					continue
+				}
+				fillers := p.singles[j:]
+				X, Y := fam[0], fam[1]
+				if !collide {
+					Y = other[0]
+				}
+				seq := []ID{X, Y}
+				if faultAt == 1 {
+					seq = []ID{other[1], X, Y}
+				}
+				for n, id := range seq {
+					if over() {
+						break
+					}
+					f := 0
+					if (faultAt == 0 && n == 0) || (faultAt == 1 && n == 1) {
+						f = 1
+					}
+					step(fmt.Sprintf("register %s %d", idTok(id), f), "")
+					if !over() {
+						step("search "+idTok(caseVariant(id)), "")
+					}
+				}
+				if !over() {
+					step("lookupall", "")
+				}
+				for n := 0; n < nFree+1 && !over(); n++ { // until the table is full, and one more
+					out, _ := step(fmt.Sprintf("register %s 0", idTok(fillers[n])), "")
+					if strings.HasPrefix(out, "errinvaliduid") {
+						break
+					}
+					for _, q := range []ID{X, Y} {
+						if !over() {
+							step("search "+idTok(caseVariant(q)), "")
+						}
+					}
+				}
+				if !over() {
+					step("lookupall", "")
+					step(fmt.Sprintf("register %s 0", idTok(caseVariant(Y))), "") // already there, in another letter case
+					step("peer lookupall", "")
+				}
+				if !over() { // the owner's reload afterwards
+					step("load", "")
+					step("lookupall", "")
+				}
+			}
+		}
+	}
+}
+
 func randomTable(p *pool, kind int) []ID {
 	r := run.R
 	table := make([]ID, MAX)
@@ -616,8 +689,24 @@ func history(p *pool, kind int, nOps int) {
 			}
 		case c < 78:
 			step("dosearch "+idTok(ID{}), "")
-		case c < 82:
+		case c < 80:
 			step(fmt.Sprintf("getuserid %d", r.Intn(MAX+3)-1), "")
+		case c < 83 && len(detached) == 0 && !fileNone && !fileTorn: // a registration through ptt.SetupNewUser, sometimes with a write fault
+			id, ok := p.freshID(nil)
+			if r.Intn(6) == 0 && len(used) > 0 {
+				id, ok = caseVariant(cache.Shm.Shm.Userid[used[r.Intn(len(used))]]), true
+			}
+			if !ok || isEmptyID(&id) {
+				continue
+			}
+			f := 0
+			if r.Intn(4) == 0 {
+				f = 1
+			}
+			step(fmt.Sprintf("register %s %d", idTok(id), f), "")
+			if !over() {
+				step("search "+idTok(caseVariant(id)), "")
+			}
 		case c < 84: // a second process starts against the live segment; its .PASSWDS is missing, torn, or agrees
 			how := []string{"create", "open"}[r.Intn(2)]
 			t := liveTable()
@@ -807,6 +896,7 @@ func generate() {
 	enumerate(p)
 	staleLookups(p)
 	restartCases(p)
+	registerCases(p)
 	nHist, nMal := 130, 25
 	if run.Thorough() {
 		nHist, nMal = 4000, 400
